@@ -374,7 +374,9 @@ def check_c09(exe, tier, seed, verdict):
             if e["op"] in ("get", "getdef"):
                 events.append({"e": "novalue", "T": e["T"], "rc": e["rc"], "text": "handle %s key %s" % (e.get("h"), e.get("k"))})
     # booleans: random texts + exhaustive sweep
-    btexts = ["", "1", "0", "yes", "Yes", "NO", "true", "FALSE", "tRuE", "on", "off", "2", "yess", " yes", "yes ", "p-", "g@lse", "no!", "01", "truefalse", "y", "n", "t", "f", "nope", "_none_"]
+    btexts = ["", "1", "0", "yes", "Yes", "NO", "true", "FALSE", "tRuE", "on", "off", "2", "yess", " yes", "yes ", "p-", "g@lse", "no!", "01", "truefalse", "y", "n", "t", "f", "nope", "_none_",
+              # the sentinel text in other letter cases and its neighbours: texts like any other (refused)
+              "_NONE_", "_None_", "_nonE_", "_nOne_", "_none", "none_", "none", "NONE", "_none_x", "x_none_", "_none__", " _none_"]
     for _ in range(200 if tier == "quick" else 5000):
         btexts.append("".join(rnd.choice(ALPHA + "xyz01") for _ in range(rnd.randint(1, 9))))
     # the neighbourhood of the legal spellings: every one-character extension (in front, behind), every single
